@@ -69,6 +69,60 @@ def compare_echo(ctx, src, echo, case, what='echo'):
     return True
 
 
+def object_histories(ctx, src, case):
+    """The Lua object route (what carts hold): one chunk, line by line, and filled in two steps with the default writer's output
+    (or the character count) requested in between; every default-writer output has to render all the code the object holds."""
+    from pico8.lua import lua
+    lines = src.splitlines(keepends=True)
+    mode = ctx.rng.randrange(4) if len(lines) >= 2 else ctx.rng.randrange(2)
+    try:
+        if mode == 0:
+            L = lua.Lua.from_lines([src], version=8)
+            ctx.feature('object_one_chunk')
+        elif mode == 1:
+            L = lua.Lua.from_lines(lines, version=8)
+            ctx.feature('object_line_by_line')
+        else:
+            # cut between two lines where the reference lexer is between tokens (not inside a long string/comment)
+            cut = None
+            offs = 0
+            starts = {t.off for t in reflex.lex(src)}
+            for k, ln in enumerate(lines[:-1]):
+                offs += len(ln)
+                if offs in starts and not ln.endswith(b'\r'):
+                    cut = k + 1
+                    if ctx.rng.random() < 0.4:
+                        break
+            if cut is None:
+                return True
+            try:
+                L = lua.Lua.from_lines(lines[:cut], version=8)
+            except Exception:
+                # the first part alone is not a program (an open block): not this history's subject
+                ctx.feature('object_two_steps_first_part_incomplete')
+                return True
+            if mode == 2:
+                b''.join(L.to_lines())
+            else:
+                L.get_char_count()
+            L.update_from_lines(lines[cut:])
+            ctx.feature('object_filled_in_two_steps')
+        echo = b''.join(L.to_lines())
+        echo2 = b''.join(L.to_lines())
+    except Exception as e:
+        if mode >= 2:
+            ctx.feature('object_two_steps_rejected')
+            return True
+        ctx.violation('Lua.from_lines/to_lines raised %r on a valid program' % (e,), case)
+        return False
+    ctx.monitor('object_echoes_compared')
+    case = dict(case, history=('one chunk', 'line by line', 'two steps, to_lines in between', 'two steps, get_char_count in between')[mode])
+    if echo2 != echo:
+        ctx.violation('two successive default-writer outputs of one Lua object differ', case)
+        return False
+    return compare_echo(ctx, src, echo, case, 'Lua object echo (%s)' % case['history'])
+
+
 def check_source(ctx, src, tag, cli_dir=None):
     from pico8.lua import lua
     rt, err = reflex.try_lex(src)
@@ -129,6 +183,9 @@ def check_source(ctx, src, tag, cli_dir=None):
             return
     if not compare_echo(ctx, src, echo, case):
         return
+    if tag in ('program', 'head'):
+        if not object_histories(ctx, src, case):
+            return
     if cli_dir is not None and b'\r' not in src:
         # full object path and CLI copy paths (these parse; only complete programs are sent here)
         from pico8 import tool
@@ -180,6 +237,14 @@ def _run_shard(spec, ctx):
                 check_source(ctx, b'x=' + q + (b'\\%03d' % b1) + b'7' + q + b'\n', 'string')
                 check_source(ctx, b'x=' + q + (b'\\x%02x' % b1) + b'7' + q + b'\n', 'string')
         ctx.sample({'string_source': b'x="A\\0009a"'})
+        # every byte that may begin a name as the very first byte of the source, and multi-byte heads that other text encodings use
+        # as markers (EF BB BF, FE FF, FF FE): in P8SCII they are ordinary glyph characters
+        heads = [bytes([b]) for b in range(128, 256)] + [b'\xef\xbb\xbf', b'\xef\xbb\xbfx', b'\xfe\xff', b'\xff\xfe', b'\xef\xbb', b'\xbb\xbf',
+                                                         b'\xef\xbb\xbf\xef\xbb\xbf', b'_', b'x']
+        for h in heads:
+            for tail in (b'=1\n', b'()', b'.x=\'s\'\n-- c\n', b'+=2\r\ny=' + h + b'\r\n'):
+                check_source(ctx, h + tail, 'head')
+                ctx.feature('source_heads')
         return
     cli_dir = tempfile.mkdtemp(prefix='vf-c06-') if spec.get('cli') else None
     try:
@@ -219,6 +284,9 @@ def gates(m, tier):
         missed.append('generator histories: abandoned %d, interleaved %d' % (f.get('abandoned_generator_before_echo', 0), f.get('interleaved_generators', 0)))
     if mon.get('quoted_strings_compared', 0) < 2000:
         missed.append('quoted strings compared: %d' % mon.get('quoted_strings_compared', 0))
+    if f.get('source_heads', 0) < 500 or f.get('object_filled_in_two_steps', 0) < 40 or mon.get('object_echoes_compared', 0) < 500:
+        missed.append('source heads %d, objects filled in two steps %d, object echoes %d' % (
+            f.get('source_heads', 0), f.get('object_filled_in_two_steps', 0), mon.get('object_echoes_compared', 0)))
     if mon.get('cli_copies_compared', 0) < 20:
         missed.append('CLI copies compared: %d' % mon.get('cli_copies_compared', 0))
     return missed
